@@ -58,3 +58,5 @@ mod c06;
 mod c01;
 #[cfg(kani)]
 mod c34;
+#[cfg(kani)]
+mod c39;
